@@ -132,6 +132,8 @@ def run(F, rep):
     # ------------------------------------------------------------ TP4 (needs only the two entry points, whatever helpers they use)
     if b2t and t2b and getattr(F, "cfg", "dev") == "dev":
         tp4_rule(F, rep, "C12-TP4")
+    if getattr(F, "cfg", "dev") == "dev":
+        layer_rule(F, rep, "C12-LAYER")
     io_rule(F, rep, "C12-IO")
     zbuf_rule(F, rep, "C12-ZBUF")
     if not rep.floor("C12-ANCHOR", sum(1 for x in (b2t, t2b, pk, up) if x), 4, "tuple packing functions"):
@@ -573,3 +575,96 @@ def zbuf_rule(F, rep, rule):
             declared = any(contains(sz, lambda x: isinstance(x, tuple) and x[0] == "call" and re.search(r"(get_frame_content_size|find_decompressed_size|decompress_bound|find_frame_compressed_size)$", x[1])) for sz in sizings)
             rep.ob(rule, "%s: the output buffer of a one-shot zstd decompression is sized from what the frame declares" % k.split("::", 1)[-1], declared,
                    detail="buffer sizes in this body: %s" % [fmt(sz)[:80] for sz in sizings][:3], site=site_of(f, t), key="%s | %s | decompress buffer" % (rule, k))
+
+
+# ---------------------------------------------------------------------------------------------------- whole layer
+_LAYER_CACHE = {}
+# a fixed ACGT string without a long self-overlap at offsets 4..31 (so that the tuple-packing arm is taken)
+_LOWREP = (0, 1, 2, 3, 3, 1, 0, 2, 2, 0, 3, 1, 1, 3, 2, 0, 0, 2, 1, 3)
+
+
+def layer_domain():
+    import itertools
+    dom = []
+    for alpha, maxlen in ((4, 4), (6, 3), (16, 2)):
+        for L in range(1, maxlen + 1):
+            dom.extend(itertools.product(range(alpha), repeat=L))
+    # the symbol that decides the packing class anywhere in the last five positions of a longer segment
+    for L in (5, 6, 7, 8, 9, 12, 13):
+        base = list(_LOWREP[:L])
+        dom.append(tuple(base))
+        for pos in range(max(0, L - 5), L):
+            for sym in (4, 5, 6, 15, 16, 30, 255):
+                v = list(base)
+                v[pos] = sym
+                dom.append(tuple(v))
+        for sym in (4, 5, 15, 30):
+            v = list(base)
+            v[0] = sym
+            dom.append(tuple(v))
+    # repetitive segments (the plain arm), with and without symbols beyond ACGT
+    dom.extend([(0,) * 8, (0, 1, 2, 3) * 3, (0, 1, 2, 3, 4) * 3, (4,) * 9, (30, 1, 2, 3) * 3, (0, 1, 2, 3, 0)])
+    seen, out = set(), []
+    for x in dom:
+        if x not in seen:
+            seen.add(x)
+            out.append(x)
+    return out
+
+
+def layer_eval(F, tls_init=None):
+    """{x: (marker, blob, unpacked | error text)} for every string of the layer domain, plus the undecidable construct if any"""
+    key = (id(F), repr(sorted((tls_init or {}).items())))
+    if key in _LAYER_CACHE:
+        return _LAYER_CACHE[key]
+    from layerint import LayerInterp
+    from absint import Undecidable, Panic
+    cr, dm = F.funcs.get(SC + "compress_reference_segment"), F.funcs.get(SC + "decompress_segment_with_marker")
+    res, undec, tls_used = {}, None, set()
+    # one world per evaluation order: the thread-local state lives as long as the "thread" does
+    world = {"tls_init": dict(tls_init or {})}
+    for x in layer_domain():
+        if tls_init is not None:
+            world = {"tls_init": dict(tls_init)}          # every item starts from the given left-over state
+        try:
+            it = LayerInterp(F)
+            it.world = world
+            r = it.call(cr, [("refval", list(x))])
+            if not (isinstance(r, dict) and r.get("__var") == "Ok"):
+                res[x] = (None, None, "compression returns %r" % (r.get("__var") if isinstance(r, dict) else r,))
+                continue
+            p = r.get(0, r.get("0"))
+            blob, marker = list(p[0]), p[1]
+            it2 = LayerInterp(F)
+            it2.world = {"tls_init": {}}
+            y = it2.call(dm, [("refval", list(blob)), marker])
+            if isinstance(y, dict) and y.get("__var") == "Ok":
+                res[x] = (marker, blob, list(y.get(0, y.get("0"))))
+            else:
+                res[x] = (marker, blob, "decompression returns an error")
+        except Panic as e:
+            res[x] = (None, None, "panics (%s)" % e)
+        except Undecidable as e:
+            undec = "%s: %s" % (list(x), e)
+            break
+        tls_used |= world.get("tls_used", set())
+    _LAYER_CACHE[key] = (res, undec, tls_used)
+    return _LAYER_CACHE[key]
+
+
+def layer_rule(F, rep, rule):
+    cr = F.funcs.get(SC + "compress_reference_segment")
+    if not rep.floor(rule, 1 if cr else 0, 1, "compress_reference_segment"):
+        return
+    res, undec, _ = layer_eval(F)
+    bad = ["%s is stored as marker %s %s and read back as %s" % (list(x), m, b, u) for x, (m, b, u) in res.items() if u != list(x)]
+    arms = sorted({m for m, b, u in res.values() if m is not None})
+    rep.ob(rule, "decompress_segment_with_marker(compress_reference_segment(x)) = x on the layer domain (every string of one tuple per class, "
+           "longer strings with the class-deciding symbol at each of the last five positions, repetitive strings), the ZSTD pair taken as lossless",
+           undec is None and not bad,
+           detail=("undecidable construct: %s" % undec) if undec else ("%d strings evaluated, markers taken %s" % (len(res), arms) if not bad else
+                                                                      "%d of %d strings fail, e.g. %s" % (len(bad), len(res), "; ".join(bad[:3]))),
+           site="%s:%d" % (cr.file, cr.line_lo), key="%s | round trip through both arms" % rule)
+    if undec is None:
+        rep.ob(rule, "the evaluation takes both the tuple-packed and the plain arm", arms == [0, 1], detail="markers %s" % arms, key="%s | both arms exercised" % rule)
+    rep.stat("layer_strings_evaluated", len(res))
